@@ -154,6 +154,11 @@ func (jr *jpegReader) nextMarker() bool {
 			continue
 		}
 
+		if jr.buf[1] == byte(markerFirstByte) {
+			// 0xFF fill byte in front of a marker (ITU T.81 B.1.1.2)
+			jr.err = jr.discard(1)
+			continue
+		}
 		if isSOIMarker(jr.buf) {
 			jr.pos++
 			jr.err = jr.discard(2)
